@@ -142,7 +142,7 @@ func setCell(path, kind, content string) {
 // Model.Cli.run evaluated on the library's own answer for the same texts.
 func C18(e *core.Env) {
 	res := e.Res
-	res.Rule = "cases = (subcommand, argument count, profile, data, prior state of the output path) and histories of 2-4 runs into one path; PROFILE / DATA given as a named pipe or as /dev/stdin behind a pipe; a document with a 77 000-character string (validate, normalize); an output path whose writes fail (/dev/full); " +
+	res.Rule = "cases = (subcommand, argument count, profile, data, prior state of the output path) and histories of 2-4 runs into one path; PROFILE / DATA given as a named pipe or as /dev/stdin behind a pipe; a document with a 77 000-character string (validate, normalize); an output path whose writes fail (/dev/full); 9 KB leftover files next to the output path (OUTPUT.tmp, OUTPUT~, .bak, .part, a swap file) in every file case; " +
 		"non-trivial = the command reaches the library and, for file output, the prior content differs from the new report; distinct by (command, profile, data, prior-state kind, history)"
 	acv := filepath.Join(e.Scratch, "acv")
 	build := exec.Command("go", "build", "-o", acv, "./cmd/main.go")
@@ -164,7 +164,8 @@ func C18(e *core.Env) {
 	profiles := []named{{"min", PoolProfileMin}, {"levels", PoolProfileLevels}, {"special", PoolProfileSpecial}, {"broken", PoolProfileBroken}, {"badyaml", PoolProfileBadYaml}}
 	// a document holding one very long string (longer than any line buffer a printer might use)
 	longText := `{"@graph":[{"@id":"http://example.org/d#long","@type":"http://example.org/ns#Thing","http://example.org/ns#name":"` + strings.Repeat("long-value ", 7000) + `"}]}`
-	datas := []named{{"good", PoolDataGood}, {"bad", PoolDataBad}, {"special", PoolDataSpecial}, {"empty", PoolDataEmpty}, {"garbage", PoolDataGarbage}, {"truncated", PoolDataTruncated}, {"long-line", longText}}
+	datas := []named{{"good", PoolDataGood}, {"bad", PoolDataBad}, {"special", PoolDataSpecial}, {"empty", PoolDataEmpty}, {"garbage", PoolDataGarbage}, {"truncated", PoolDataTruncated}, {"long-line", longText},
+		{"markup", `{"@graph":[{"@id":"http://example.org/d#q?a=1&b=2","@type":"http://example.org/ns#Thing","http://example.org/ns#name":"<b>bold</b> & more > less \u2028 \u00e9 \\ \" / \u0007","http://example.org/ns#child":{"@id":"http://example.org/d#<x>"}}]}`}}
 	root := os.Geteuid() == 0
 	if root {
 		res.Note("running as root: a read-only prior file cannot be made unwritable, so the read-only prior state is exercised as a directory only")
@@ -220,8 +221,17 @@ func C18(e *core.Env) {
 					kind = "file"
 				}
 				setCell(outp, kind, pr.text)
+				// files NEXT TO the output path left behind by earlier runs or other tools (longer than any report here): whatever
+				// the command does with them, the output path must end up holding exactly the report
+				siblings := []string{outp + ".tmp", outp + "~", outp + ".bak", outp + ".part", filepath.Join(work, ".out.jsonld.swp"), filepath.Join(work, "out.jsonld.tmp.1"), filepath.Join(work, "out.tmp")}
+				for _, sb := range siblings {
+					os.WriteFile(sb, []byte("{\"leftover\": \""+strings.Repeat("s", 9000)+"\"}\n"), 0o644)
+				}
 				r := runCli(acv, "validate", pp, dp, outp)
 				after := observeCell(outp, kind == "ro")
+				for _, sb := range siblings {
+					os.Remove(sb)
+				}
 				res.Count("prior=" + pr.name)
 				check("validate-file/"+p.name+"/"+d.name+"/"+pr.name, libErr == nil && pr.text != libText,
 					sx.L(sx.A("c18"), sx.A("run"), sx.B(trunc), sx.A("validate"), sx.I(5), sx.B(true), lib, cellV(kind, pr.text)),
